@@ -138,8 +138,11 @@ def run(ctx):
         for ln in bad:
             ev = json.loads(lines[ln - 1])
             fams = classify(ev)
-            if fams and all(ctx.is_known(f) is not None or f in assume for f in fams):
-                for f in fams:
+            kf = [f for f in fams if ctx.is_known(f) is not None or f in assume]
+            if kf:
+                # a recorded finding is present in the expression: not reported again (families
+                # that are present but not recorded, e.g. because they are repaired, do not count)
+                for f in kf:
                     known.setdefault(f, []).append(ev["src"])
             else:
                 unknown.append((ln, ev, fams))
